@@ -106,6 +106,7 @@ pub fn bounds_violation(vm: &essential_vm::Vm) -> Option<String> {
 }
 
 fn hook(vm: &essential_vm::Vm) {
+    crate::sched::maybe_yield();
     HOOK_STEPS.with(|c| c.set(c.get() + 1));
     if let Some(b) = bounds_violation(vm) {
         HOOK_BAD.with(|h| {
